@@ -137,7 +137,17 @@ NoiseNextL2(seed, M, checked) ==
 (* acceptance predicates for observed executions (Trace_Osc)               *)
 
 \* q is hz/rate within k ulp (verify by inverse; no division)
-StepAccept(hz, rate, q, k) == IsQuotientWithin(F64, Dec(F64, hz), Dec(F64, rate), q, k)
+\* ... and when hz/rate is itself a binary64 number the step must be exactly that number: the quotient
+\* of an IEEE division is exact whenever it is representable, and only then do frequencies that are
+\* whole multiples of the rate bring the phase back to exactly 0 (a neighbour c of q with c * rate = hz
+\* exactly shows that the exact quotient is representable and is not q)
+NeighbourIsExact(hz, rate, q) ==
+  \E d \in {-2, -1, 1, 2} :
+     LET c == DAdd(Dec(F64, q), DMul(DFromInt(d), Ulp(F64, q)))
+     IN DEq(DMul(c, Dec(F64, rate)), Dec(F64, hz))
+StepAccept(hz, rate, q, k) ==
+  /\ IsQuotientWithin(F64, Dec(F64, hz), Dec(F64, rate), q, k)
+  /\ ~NeighbourIsExact(hz, rate, q)
 
 \* ph2 is (ph + q) mod 2^w within 2 ulp of the sum (the wrap itself is exact; the observed
 \* value may sit on the other side of the wrap point), inside [0, 2^w), and EXACT when the sum
